@@ -197,6 +197,41 @@ if want("outer"):
             if not ok:
                 fail(f"{nm}:lazy:layout", f"lazy {nm} is not the pairwise product indexed self.shape+other.shape "
                      f"for {sa}x{sb} chunk {k}", rep)
+    # --- Miller operands: the lazy result must be the same KIND of object as the eager one (class, phase,
+    # coordinate format), otherwise its hkl / uvw coordinates differ (or cannot be read at all)
+    from orix.crystal_map import Phase as _Phase
+    from orix.vector import Miller as _Miller
+    from diffpy.structure import Lattice as _Lattice, Structure as _Structure
+    _phases = [_Phase(point_group="m-3m"),
+               _Phase(point_group="6/mmm", structure=_Structure(lattice=_Lattice(3.2, 3.2, 5.1, 90, 90, 120))),
+               _Phase(point_group="2/m", structure=_Structure(lattice=_Lattice(4.0, 5.0, 6.5, 90, 104, 90)))]
+    for t in range(max(N // 30, 6)):
+        sa, sb = R.choice(SHAPES), R.choice(SHAPES)
+        k = pick_k(sa, sb)
+        ph = _phases[t % 3]
+        fmt = ["hkl", "uvw", "hkil", "UVTW", "xyz"][t % 5]
+        if fmt in ("hkil", "UVTW") and ph.point_group.name != "6/mmm":
+            fmt = "hkl"
+        M = _Miller(xyz=np.array(vec_data(sb)), phase=ph)
+        M.coordinate_format = fmt
+        for cls, A in (("Quaternion", Quaternion(quat_data(sa, "unit"))), ("Rotation", mk_rot(sa))):
+            e, l = A.outer(M), A.outer(M, **lazy_kw(k))
+            st(f"miller/{cls}/{fmt}")
+            rep = {"sa": sa, "sb": sb, "k": k, "A": A.data.tolist(), "xyz": M.data.tolist(), "format": fmt,
+                   "point_group": ph.point_group.name}
+            oracle_lazy(f"{cls}.outer(Miller):lazy!=eager", f"{cls}.outer(Miller) {sa}x{sb} chunk {k}", e.data, l.data, rep)
+            same_kind = (type(e) is type(l) and getattr(l, "coordinate_format", None) == e.coordinate_format
+                         and getattr(l, "phase", None) is not None
+                         and l.phase.point_group.name == e.phase.point_group.name
+                         and np.allclose(l.phase.structure.lattice.abcABG(), e.phase.structure.lattice.abcABG()))
+            if same_kind:
+                same_kind = np.allclose(l.coordinates, e.coordinates, atol=1e-9)
+            if not same_kind:
+                fail(f"{cls}.outer(Miller):lazy!=eager:kind",
+                     f"{cls}.outer(Miller, lazy=True) is not the same kind of object as with lazy=False: "
+                     f"{type(l).__name__} format {getattr(l, 'coordinate_format', None)!r} phase "
+                     f"{getattr(getattr(l, 'phase', None), 'point_group', None)!r} instead of {type(e).__name__} "
+                     f"format {e.coordinate_format!r} phase {e.phase.point_group.name}", rep)
     set_backend(True)
 
 # ================================================ orientations: dot_outer / angles
